@@ -145,6 +145,28 @@ func runC12(c *Ctx) {
 			prefersRequest := false
 			for _, in := range instrsIn(upf, isStoreToField(fv)) {
 				st := in.(*ssa.Store)
+				// the choice may have been moved into a helper "request's value, else the pod's": the helper's return
+				// of the request's value is then the place where the precedence is decided
+				if call, isCall := stripConv(st.Val).(*ssa.Call); isCall {
+					if cal := call.Common().StaticCallee(); cal != nil && len(cal.Blocks) > 0 && hasModPrefix(cal) {
+						for _, b := range cal.Blocks {
+							ret, isRet := b.Instrs[len(b.Instrs)-1].(*ssa.Return)
+							if !isRet || len(ret.Results) == 0 {
+								continue
+							}
+							rt := termOf(unspill(ret, 0))
+							if !strings.Contains(rt.String(), "."+src) {
+								continue
+							}
+							ok = true
+							root := rootParam(rt)
+							_, dependsOnOther := hasFact(fx.FactsAt(ret), func(f Fact) bool {
+								return f.T.contains(func(x *Term) bool { return x.Op == "param" && x.paramIndex() != root })
+							})
+							prefersRequest = !dependsOnOther
+						}
+					}
+				}
 				if strings.Contains(termOf(st.Val).String(), "."+src) {
 					ok = true
 					// taken from the request whenever the request carries it (not only when the pod has none)
